@@ -389,6 +389,8 @@ func call(c *rcase, recv mat.Matrix, a []mat.Matrix) result {
 		recv.(*mat.Dense).Kronecker(a[0], a[1])
 	case "Pow":
 		recv.(*mat.Dense).Pow(a[0], c.N1)
+	case "ExpZero": // the operand is the zero matrix (MatOps.tla)
+		recv.(*mat.Dense).Exp(a[0])
 	case "RankOne":
 		recv.(*mat.Dense).RankOne(a[0], al, vecArg(a, 1), vecArg(a, 2))
 	case "Outer":
@@ -560,6 +562,14 @@ func receiver(c *rcase, store []float64) (mat.Matrix, error) {
 	if err != nil {
 		return nil, err
 	}
+	if c.Rs == "reset" {
+		// a receiver that held a larger matrix and was Reset: empty, its storage is reused
+		r, isR := m.(interface{ Reset() })
+		if !isR {
+			return nil, fmt.Errorf("receiver representation %s (%T) has no Reset", c.Recv.Rep.Kind, m)
+		}
+		r.Reset()
+	}
 	ok := false
 	switch fam {
 	case "Dense":
@@ -692,7 +702,7 @@ func replay(in *core.Lines, args []string, seed int64, sum *core.Summary) error 
 		case out.Panicked && out.Runtime:
 			sum.Fail(sig("runtime-panic"), fmt.Sprintf("runtime error: %s (spec: %s)", out.Text, expText(&c)), raw)
 			continue
-		case out.Panicked && !c.Exp.Panic && c.Rs == "zero" && family(c.Op) != "Func":
+		case out.Panicked && !c.Exp.Panic && (c.Rs == "zero" || c.Rs == "reset") && family(c.Op) != "Func":
 			sum.Fail(sig("empty-receiver-panic"), fmt.Sprintf("panicked %q with an empty receiver; spec demands %s", out.Text, expText(&c)), raw)
 			continue
 		case out.Panicked && !c.Exp.Panic:
